@@ -807,6 +807,7 @@ func (c *Compiler) ProcessModuleIncludes(m parse.Node, submodules map[string]par
 		m.AddChildren(smod.ChildrenByType(parse.NodeImport)...)
 		m.AddChildren(smod.ChildrenByType(parse.NodeDataDef)...)
 		m.AddChildren(smod.ChildrenByType(parse.NodeAugment)...)
+		m.AddChildren(smod.ChildrenByType(parse.NodeDeviation)...)
 	}
 }
 
